@@ -29,6 +29,12 @@ E1_NOTE = ("Trusted: rustc/Kani/CBMC/CaDiCaL; the 40-line LR-run specification i
            "(cross-checked in setup); the corpus is a stated bound on the grammar dimension. The driver (state_machine.rs) is linked "
            "in through native validation on all inputs up to length 3/4, not through the solver.")
 
+E2_NOTE = ("Trusted: rustc/Kani/CBMC; corpus/actions.py (documented default actions, binding forms, @L/@R neighbour rule, inline composition) as the expectation; "
+           "the stack is concretely shaped (k children + 0/1 symbol below), its contents symbolic; recording actions replace user code. Counterexamples are replayed natively by Kani's concrete playback "
+           "against the real generated code before being reported.")
+E3_NOTE = ("Trusted: engines/symdrive (decision scheduling shim + event-log checker, ~600 lines), z3, and the printed ParserDefinition contract (EOF actions never shift; pops bounded by the stack; "
+           "error column never accepts; reduce() behaves like the generated __reduce). The code under execution is the real natively compiled state_machine.rs; tables are uninterpreted functions, "
+           "so one exploration covers all automata within the step bounds.")
 chk("C01", "E1 tabsym", "model_checking",
     "For each corpus grammar x {lane table, canonical LR(1), LALR(1)} x pub start symbol, CBMC decides for ALL token sequences up to N "
     "(quick 5, thorough 7) that an LR run over the real generated __action/__EOF_ACTION/__goto/__simulate_reduce/__token_to_integer "
@@ -90,12 +96,6 @@ chk("C11", "E4 lexsym", "translation_validation",
     "terminals tie on some string no higher-precedence terminal claims; the generator must answer 'ambiguity detected' exactly then, and the unsupported-feature diagnostic for look-around / non-greedy / named captures.", E4_NOTE,
     "SMT (z3 regex theory): non-emptiness of pairwise intersections minus higher-precedence languages vs the generator's verdict", "DESIGN.md §3 C11")
 
-E2_NOTE = ("Trusted: rustc/Kani/CBMC; corpus/actions.py (documented default actions, binding forms, @L/@R neighbour rule, inline composition) as the expectation; "
-           "the stack is concretely shaped (k children + 0/1 symbol below), its contents symbolic; recording actions replace user code. Counterexamples are replayed natively by Kani's concrete playback "
-           "against the real generated code before being reported.")
-E3_NOTE = ("Trusted: engines/symdrive (decision scheduling shim + event-log checker, ~600 lines), z3, and the printed ParserDefinition contract (EOF actions never shift; pops bounded by the stack; "
-           "error column never accepts; reduce() behaves like the generated __reduce). The code under execution is the real natively compiled state_machine.rs; tables are uninterpreted functions, "
-           "so one exploration covers all automata within the step bounds.")
 chk("C02", "E2 redsym", "model_checking",
     "For every production of the action corpus (named/mut/tuple bindings, <>, default unit/single/tuple actions, inlined and fallible actions) Kani executes the REAL generated __reduce(p, ..) on a stack of "
     "symbolic values/locations/states and decides that the recording-action log is exactly the post-order, left-to-right call sequence with the right arguments, each node once, the pushed value is the "
